@@ -555,6 +555,15 @@ func (g *Gen) peers(cl *Cluster) []Peer {
 			out = append(out, Peer{PodSel: &s})
 		}
 	}
+	for roleClash(PRule{Peers: out}) {
+		// cannot happen through `used`; kept as a guard: drop the last block
+		for i := len(out) - 1; i >= 0; i-- {
+			if out[i].Block != nil {
+				out = append(out[:i], out[i+1:]...)
+				break
+			}
+		}
+	}
 	return out
 }
 
@@ -621,6 +630,34 @@ func (g *Gen) policySpec(cl *Cluster, p *Policy) {
 	}
 }
 
+// roleClash reports whether a rule names one network both as the block of a peer and as an exception of a peer (the
+// same or another one). The API accepts that (peers are OR-ed, so the block re-admits what the other peer excepts),
+// but one hash:net set cannot hold a member with and without nomatch: what galaxy's one-set-per-rule design (known
+// D13) then installs depends on which form it added last and alternates from one synchronisation to the next, so
+// there is no single expected state to hold it to. Such rules are not generated (stated in AUDIT.md).
+func roleClash(r PRule) bool {
+	blocks, excepts := map[string]bool{}, map[string]bool{}
+	for _, pe := range r.Peers {
+		if pe.Block == nil {
+			continue
+		}
+		if c, ok := netMember(pe.Block.CIDR); ok {
+			blocks[c] = true
+		}
+		for _, ex := range pe.Block.Except {
+			if c, ok := netMember(ex); ok {
+				excepts[c] = true
+			}
+		}
+	}
+	for c := range blocks {
+		if excepts[c] {
+			return true
+		}
+	}
+	return false
+}
+
 // flipRoles returns a copy of the policy in which one ipBlock CIDR changes its role inside its rule: a block's cidr
 // becomes an exception of a wider block, or an exception becomes the block itself. nil if the policy has no ipBlock.
 // (An update of this kind makes the same hash:net member wanted with and without nomatch in consecutive syncs.)
@@ -679,6 +716,9 @@ func (g *Gen) flipRoles(p *Policy) *Policy {
 		nb.Except = []string{fmt.Sprintf("%s/%d", u32ToIP(base), bits)}
 	}
 	rules[l.r].Peers[l.pe] = Peer{Block: nb}
+	if roleClash(rules[l.r]) {
+		return nil // the new role collides with another peer of the same rule
+	}
 	return &cp
 }
 
